@@ -44,6 +44,8 @@ OTHER_SUFFIX = ["foo", "message2", "msgs", "messages2", "session", "messages.jso
 # registrations that well-known packages put on http.DefaultServeMux in init()
 DEFAULT_MUX = ["/debug/pprof/", "/debug/pprof/cmdline", "/debug/pprof/heap", "/debug/pprof/goroutine",
                "/debug/pprof/symbol", "/debug/pprof/allocs", "/debug/vars", "/debug/requests", "/debug/events"]
+# the raft transport's RPC names (rafthttp): only ever requested without the password
+RAFT_RPCS = ["/raft/RequestVote", "/raft/InstallSnapshot", "/raft/InstallSnapshotStreaming", "/raft/AppendEntries/x"]
 DESTRUCTIVE = ("/quit", "/join", "/part", "/kill", "/config", "/snapshot")
 
 
@@ -99,9 +101,9 @@ def raw_public_step(req, victim, k, g, meta, path, force_auth=None):
     return st
 
 
-def private_step(req, k, g, meta, path=None):
+def private_step(req, k, g, meta, path=None, force_basic=None):
     st = {"op": "private", "method": req["method"], "path": path or req["path"],
-          "basic": g.cyc(BASIC_SUB[req["basic"]]), "tag": meta}
+          "basic": force_basic or g.cyc(BASIC_SUB[req["basic"]]), "tag": meta}
     meta["basicVariant"] = st["basic"]
     if req["cred"] == "correct":
         st["auth"] = "correct"
@@ -192,14 +194,17 @@ def private_programs(ctx, table, g, shards, fuzz):
     for sh in range(shards):
         steps = [{"op": "create_session", "as": "O"}, {"op": "login", "session": "O", "nick": "adm%d" % sh}]
         for kind, r in slow[sh::shards] + fast[sh::shards]:
-            k = len(steps)
-            meta = {"req": r["req"], "private": True}
-            if kind == "row":
-                meta["row"] = True
-                meta["expect"] = r["resp"]
-            else:
-                meta["fuzz"] = True
-            steps.append(private_step(r["req"], k, g, meta))
+            # thorough: table rows with every spelling of the wrong credentials
+            variants = BASIC_SUB[r["req"]["basic"]] if (g.thorough and kind == "row") else [None]
+            for fb in variants:
+                k = len(steps)
+                meta = {"req": r["req"], "private": True}
+                if kind == "row":
+                    meta["row"] = True
+                    meta["expect"] = r["resp"]
+                else:
+                    meta["fuzz"] = True
+                steps.append(private_step(r["req"], k, g, meta, force_basic=fb))
         progs.append({"name": "priv-%d" % sh, "opts": {}, "steps": steps})
     # destructive with correct auth: last, in its own process
     steps = [{"op": "create_session", "as": "O"}, {"op": "login", "session": "O", "nick": "admq"}]
@@ -239,7 +244,7 @@ def fuzz_requests(ctx, lits, g, nrandom, table_paths):
     """(private fuzz, public fuzz) as lists of {"req": abstract, "path": concrete}."""
     lit_values = sorted({l["lit"] for l in lits})
     KNOWN_SLUGS.update(l if l.startswith("/") else "/" + l for l in lit_values)
-    KNOWN_SLUGS.update(DEFAULT_MUX)
+    KNOWN_SLUGS.update(DEFAULT_MUX + RAFT_RPCS)
     KNOWN_SLUGS.update(table_paths)
     words = sorted({w for l in lit_values for w in l.strip("/").split("/") if w} |
                    {"debug", "pprof", "cmdline", "heap", "vars", "admin", "api", "v2", "robustirc", "v1", "raft",
@@ -252,7 +257,7 @@ def fuzz_requests(ctx, lits, g, nrandom, table_paths):
             paths.append(p + "/")
         else:
             paths.append(p + "x")
-    paths += DEFAULT_MUX
+    paths += DEFAULT_MUX + RAFT_RPCS
     paths += random_paths(g, nrandom, words)
     seen = set()
     priv = []
@@ -262,7 +267,7 @@ def fuzz_requests(ctx, lits, g, nrandom, table_paths):
         seen.add(p)
         if p.startswith(PREFIX) or p == PREFIX.rstrip("/"):
             continue   # routed to the public dispatcher by the mux; covered by the public fuzz
-        methods = ["GET", "POST"] if p in DEFAULT_MUX or any(p == l or p.rstrip("/") == l for l in lit_values) else [g.cyc(["GET", "POST", "DELETE", "PUT", "GET"])]
+        methods = ["GET", "POST"] if p in DEFAULT_MUX or p in RAFT_RPCS or any(p == l or p.rstrip("/") == l for l in lit_values) else [g.cyc(["GET", "POST", "DELETE", "PUT", "GET"])]
         for m in methods:
             for basic in ("none", "wrongUser", "wrongPw"):
                 priv.append({"req": {"disp": "private", "method": m, "path": p, "cred": "none", "basic": basic}})
@@ -514,7 +519,7 @@ def run(ctx):
     if incomplete:
         ctx.log(incomplete)
 
-    nrandom = 100 if ctx.quick else 300
+    nrandom = 100 if ctx.quick else 400
     table_paths = {r["req"]["path"] for r in table if r["req"]["disp"] == "private"}
     priv_fuzz, pub_fuzz = fuzz_requests(ctx, lits["literals"], g, nrandom, table_paths)
     shards = 8 if ctx.quick else 12
